@@ -550,6 +550,22 @@ class Gen:
             sc.sites.append(self.new_site(sc, kind, root, segs, quoted=quoted, calls=calls))
         if sc.init is not None:
             params = [p for p in sc.init if p != "self"]
+            sc.init_imports = []
+            if rng.random() < 0.35:        # imports local to __init__: members of the Function, fast locals for CPython
+                for _ in range(rng.randint(1, 2)):
+                    free = [x for x in VALUE[:5] if x not in sc.init and x not in [n for n, _ in sc.init_imports]]
+                    if not free:
+                        break
+                    n = rng.choice(free)
+                    done = [o for o in self.mods if o.scope is not None and [e for e in o.scope.bind if not self.rebind or o.scope.nbind.get(e, 0) == 1]]
+                    if done and rng.random() < 0.5:
+                        o = rng.choice(done)
+                        e = rng.choice([e for e in o.scope.bind if not self.rebind or o.scope.nbind.get(e, 0) == 1])
+                        sc.init_imports.append((n, f"from {o.dotted} import {e} as {n}"))
+                    else:
+                        sc.init_imports.append((n, rng.choice([f"import json.decoder as {n}", f"from json import encoder as {n}",
+                                                               f"from json.decoder import JSONDecoder as {n}"])))
+            params = params + [n for n, _ in sc.init_imports] * 2
             for _ in range(rng.randint(1, 3)):
                 if rng.random() < 0.3:
                     sc.init_sites.append(self.new_site(sc, "xinit", "", [], quoted=False, expr=self.gen_xexpr(sc, params)))
@@ -591,8 +607,12 @@ class Gen:
             return f"{self._xname(sc, params, locs)}({sub()}, k={sub()})"
         if r < 0.22:
             return f"{self._xname(sc, params, locs)}[{sub()}]"
+        if r < 0.245:      # attribute of something that is not a name: only the root of a chain is looked up in the scope
+            return f"{self._xname(sc, params, locs)}({sub()}).{rng.choice(VALUE)}" if rng.random() < 0.5 else f"{self._xname(sc, params, locs)}[{sub()}].{rng.choice(VALUE)}"
         if r < 0.27:
             return f"({sub()} if {sub()} else {sub()})"
+        if r < 0.29:       # f-string: replacement field, nested format spec (evaluated in the same scope as the string)
+            return f'f"a{{({sub()})}}b"' if rng.random() < 0.6 else f'f"{{({sub()}):{{({sub()})}}}}"'
         if r < 0.31:
             return f"{{{sub()}: {sub()}}}"
         binders = VALUE[:5] + ["p"]
@@ -645,7 +665,7 @@ class Gen:
         if self.rebind or self.twin:
             return []
         i, root, e = s["id"], s["root"], s["expr"]
-        loc = f", {root!r} in locals()" if in_init else ""
+        loc = f", {root!r} in locals() and {root!r} in {getattr(self, '_init_params', ())!r}" if in_init else ""
         L = [f"try: _REC({i}, 'root', {root}{loc})", f"except NameError: _REC({i}, 'root')"]
         if s["segs"]:
             L += [f"try: _REC({i}, 'full', {e})", f"except NameError: _REC({i}, 'full')",
@@ -702,6 +722,9 @@ class Gen:
             L += body or [ind + "    pass"]
         if sc.init is not None:
             L.append(f"{ind}def __init__({', '.join([sc.init[0]] + [p + '=None' for p in sc.init[1:]])}):")
+            for _, text in getattr(sc, "init_imports", []):
+                L.append(f"{ind}    {text}")
+            self._init_params = tuple(sc.init)
             for s in sc.init_sites:
                 carrier = "b" if s["kind"] == "xinit" else "a"
                 L += [f"{ind}    try: self.{carrier}{s['id']} = {s['expr']}", f"{ind}    except Exception: pass"]
@@ -1220,6 +1243,13 @@ def check_clean_packages(ctx, n, tag, rebind=False):
             continue
         ctx.count("packages_compared" + ("_rebind" if rebind else ""))
         compare_package(ctx, g, files, info, res)
+        if ctx.rng.random() < 0.35:
+            try:
+                check_reloaded(ctx, g, files, info)
+            except Exception:  # noqa: BLE001
+                import traceback
+                ctx.property_failure({"root": g.root, "files": files, "reloaded": True},
+                                     {"griffe raised while dumping / reloading / resolving": traceback.format_exc()[-1200:]})
         if not rebind and ctx.rng.random() < 0.4:
             try:
                 check_stub_variant(ctx, g, files, info, d)
@@ -1227,6 +1257,75 @@ def check_clean_packages(ctx, n, tag, rebind=False):
                 import traceback
                 ctx.property_failure({"root": g.root, "files": files, "stub_variant": True},
                                      {"griffe raised while loading/resolving the stub-merged package": traceback.format_exc()[-1200:]})
+
+
+# --- reloaded trees (JSON entry point): every identifier of every stored expression keeps its path
+class _Reloaded:
+    def __init__(self, root, module):
+        self.root, self.module = root, module
+
+    def __getitem__(self, path):
+        return self.module if path == self.root else self.module[path[len(self.root) + 1:]]
+
+
+def check_reloaded(ctx, g, files, info):
+    """The tree just compared with CPython, dumped with as_json and decoded again: the decoder re-attaches the scopes
+    (_attach_parent_to_expr).  Every name of every site expression - attribute parts included: only the root of a chain is looked
+    up in the scope - must have the canonical path it had before the dump."""
+    import griffe
+    top = info["coll"][g.root]
+    re_ = _Reloaded(g.root, griffe.Module.from_json(top.as_json()))
+    case = {"root": g.root, "files": files, "reloaded": True}
+    ctx.count("reloaded_packages")
+
+    v = V()
+    todo, queries = [], []
+    scs = {c.path: c for m in g.all_mods for c in g.walk_classes(m.scope)}
+    for s in g.sites:
+        # the decoder attaches the expressions of an object to the object's parent scope: for the value of an instance attribute
+        # that is the class, not the __init__ Function the visitor used (parameters, local imports are out of reach)
+        true_scope = info["coll"][s["scope"]]
+        for a, b in zip(site_expr(info["coll"], s), site_expr(re_, s)):
+            if not isinstance(a, griffe.Expr) or not isinstance(b, griffe.Expr):
+                continue
+            oa, ob = [], []
+            xl = xlive(a, oa)
+            xlive(b, ob)
+            # what the decoder does: every name is attached to the object again (no local names, no function scopes): the builders
+            # without the repairs of C04-F3 / F4, over the form of the walk the tree has
+            queries.append(["expr", [v[0], False, False], abstract_chain(true_scope), xl])
+            todo.append((s, a, b, oa, ob))
+    outs = ctx.model(queries)
+    for (s, a, b, oa, ob), mo in zip(todo, outs):
+        rows = mo[0]
+        roots_a, roots_b = [[n.name, n.canonical_path] for n in oa], [[n.name, n.canonical_path] for n in ob]
+        ids_a, ids_b = {id(n) for n in oa}, {id(n) for n in ob}
+        chained = lambda n: "chained" if isinstance(n.parent, (griffe.ExprName, str, type(None))) else "attached to " + type(n.parent).__name__
+        parts_a = [[n.name, chained(n)] for n in a.iterate(flat=True) if isinstance(n, griffe.ExprName) and id(n) not in ids_a]
+        parts_b = [[n.name, chained(n)] for n in b.iterate(flat=True) if isinstance(n, griffe.ExprName) and id(n) not in ids_b]
+        ctx.case({"root": g.root, "reloaded_site": s["id"], "src": files_digest(files)}, any(x != y for x, y in roots_a))
+        site = {k: w for k, w in s.items() if k not in ("g", "xs")}
+        if parts_a != parts_b:       # attribute parts: never looked up in a scope, before or after
+            ctx.observe("reloaded_site", "attribute-part-differs")
+            ctx.property_failure({**case, "site": site}, {"expression": str(a), "attribute parts after reload": parts_b, "before": parts_a})
+            continue
+        if roots_a == roots_b:
+            ctx.observe("reloaded_site", "same")
+            continue
+        # C04-F9: the members of a Function (imports local to __init__) do not survive the round trip
+        local_imports = {n for n, _ in getattr(scs.get(s["scope"]), "init_imports", [])} if s["kind"] in ("init", "xinit") else set()
+        if local_imports and len(roots_a) == len(roots_b) and all(x[0] in local_imports for x, y in zip(roots_a, roots_b) if x != y) \
+                and not re_[s["scope"] + ".__init__"].members and info["coll"][s["scope"] + ".__init__"].members:
+            ctx.observe("reloaded_site", "C04-F9")
+            ctx.property_failure({**case, "site": site}, {"expression": str(a), "after_reload": roots_b, "before": roots_a}, finding="C04-F9")
+            continue
+        # C04-F8 only if the model of "every name attached to the object again" reproduces the reloaded tree exactly
+        f8 = [[r[0], r[1]] for r in rows] == roots_b
+        ctx.observe("reloaded_site", "C04-F8" if f8 else "differs")
+        ctx.property_failure({**case, "site": site},
+                             {"expression": str(a), "after_reload": roots_b, "before (compared with CPython above)": roots_a,
+                              "model (builders without local names / function scopes)": [[r[0], r[1]] for r in rows]},
+                             finding="C04-F8" if f8 else None)
 
 
 # --- stub-merged trees: the module text moves to a sibling .pyi, the .py keeps a part of it (stub-only classes / functions / imports)
@@ -1699,6 +1798,10 @@ def compare_package(ctx, g, files, info, res):
                 fam = next(iter(fams))
                 ctx.observe("x_instruction", fam + ":" + sk)
                 where, d = cp_binding(fam, sk, node.id, ns_scope, ns_module)
+                if fam == "FAST" and row[4] == "function":
+                    # an import local to __init__: the compiler confirms a function-local, the object it holds is not observable
+                    # from outside the call; the path is compared through the in-place probe of the bind-once stream
+                    d = pathdesc.get(row[3], ["dangling"])
                 if fam == "FAST" and row[4] not in where and node.id in xr["targets"]:
                     # CPython 3.12.0-3.12.1 compiler defect (inlined comprehensions, PEP 709): a target of a comprehension nested in the
                     # first iterable of another one leaks as a fast local into the enclosing code object (UnboundLocalError at run
@@ -2234,6 +2337,8 @@ def witnesses(ctx):
                 get = lambda q: wl.modules_collection[q]
             else:
                 mod = griffe.visit("m", filepath=None, code=w["source"])
+                if w.get("reload"):
+                    mod = griffe.Module.from_json(mod.as_json())
                 get = lambda q: mod[q[2:]]
             got = []
             for path, attr, name in w["lookups"]:
